@@ -180,6 +180,9 @@ func HandlerSeq(a Args) {
 			case 5:
 				return absx.RelMax
 			case 6:
+				if rng.Intn(2) == 0 {
+					return absx.AbsBase + 3000 + rng.Intn(3) // an absolute time more than 30 days ahead
+				}
 				return absx.AbsBase + 1 + rng.Intn(3)
 			default:
 				return absx.AbsBase - 1
